@@ -909,7 +909,11 @@ impl GlyphDataOffsetArray for Gvar<'_> {
             flags &= 0b11111110;
         }
 
-        let max_new_size = orig_size + offsets.data.len();
+        // The header and shared tuples are copied from the original table, the offsets array
+        // (which may be wider than the original one) and the glyph data are new.
+        let max_new_size = orig_size
+            .saturating_add(offsets.offset_array.len())
+            .saturating_add(offsets.data.len());
 
         // part 1 and 2 - write gvar header and offsets
         let mut serializer = Serializer::new(max_new_size);
